@@ -35,6 +35,8 @@ func checkC01(w *World, r *Report) {
 	c01WsWrite(w, r)
 	c01WriteCounts(w, r)
 	c01WsReadLimit(w, r)
+	r.Rule("R01.14", "the client forgets its shared physical connection only when that connection is dead or has just been closed (a living session left behind shares the re-dialled connection: cross-delivery)", 1)
+	ruleSharedConnectionForgottenOnlyWhenDead(w, r, "R01.14")
 	r.Rule("R01.13", "records of a multi-record DNS answer are put back in order by a comparator that indexes the slice being sorted (resolvers reorder record sets)", 1)
 	ruleSortComparatorIndexesSortedSlice(w, r, "R01.13", func(p string) bool { return strings.HasPrefix(p, modPath+"/internal/streams/dns") })
 	r.Rule("R01.12", "no codec of the DNS carrier cuts a payload short: ascii85.Decode has worst-case room or its consumed count is checked (a zero-heavy fragment decodes to more bytes than its text is long)", 1)
